@@ -195,6 +195,14 @@ def main(argv):
 
     # ---- 2. generated-input search, sharded over processes --------------------
     parts = [p for p in mod.PARTS if not only_parts or p.name in only_parts]
+    # keep a whole tier within its wall-clock target: parts run one batch of shards after the other, so
+    # the sum of their search budgets bounds the run (quick ~2.5 min, thorough ~25 min on 16 cores)
+    target = {"quick": 150.0, "thorough": 1500.0}[tier]
+    # (finite enumerations keep their own budget and run first: they end when the space is covered)
+    rounds = sum(p.budget_s[tier] * max(1, (p.shards[tier] + NCPU - 1) // NCPU) for p in parts if p.kind != "enumerate")
+    bscale = min(1.0, target / rounds) if rounds else 1.0
+    env["VT_BUDGET_SCALE"] = repr(bscale)
+    parts = [p for p in parts if p.kind == "enumerate"] + [p for p in parts if p.kind != "enumerate"]
     jobs = []
     tmpd = tempfile.mkdtemp(prefix="vt-run-")
     for part in parts:
@@ -216,7 +224,7 @@ def main(argv):
             j["t0"] = time.time()
             # hard wall-clock cap: search budget + shrink window + slack; a shard
             # that exceeds it is killed and reported as a harness problem
-            j["limit"] = j["part"].budget_s[tier] * 2 + 600
+            j["limit"] = j["part"].budget_s[tier] * bscale * 2 + 600
             running.append(j)
         time.sleep(0.05)
         for j in list(running):
